@@ -194,6 +194,8 @@ theorem later_paste_prefix (cfg : Cfg) (st : PState) (q : Bytes)
       | exact Or.inl rfl
       | exact Or.inr rfl
       | (rw [parseClipboardV_short _ _ _ (by decide)]; first | exact Or.inl rfl | exact Or.inr rfl)
+      | exact parseSgrMouse_short cfg st _ (by decide)
+      | (cases hst : cfg.sgrStrict <;> simp [Silent, parseSgrMouse, sgrRun, sgrStepV, sgrKnown, sgrStep, inNum, hst])
 
 theorem pasteStart_good (cfg : Cfg) (hp : pasteKeys cfg.keys = true) (st : PState) (hs : st.escaped = false) :
     GoodTok cfg st ⟨pasteStartSeq, .paste true⟩ := by
@@ -261,6 +263,7 @@ theorem focus_good (cfg : Cfg) (st : PState) (c : Nat) (hc : c = 73 ∨ c = 79)
             | exact Or.inl rfl
             | exact Or.inr rfl
             | (rw [parseClipboardV_short _ _ _ (by simp)]; first | exact Or.inl rfl | exact Or.inr rfl)
+            | exact parseSgrMouse_short cfg st _ (by simp)
     · right
       refine ⟨parseFocus, by simp, ?_⟩
       rcases this with rfl | rfl <;> rfl
